@@ -187,6 +187,7 @@ const nAbsNow = int64(1000000000)
 type nLogEntry struct {
 	addr, tag int
 	ok        bool
+	seq       int // sequence number of the bundle handed to the CLA
 }
 
 type nRun struct {
@@ -196,7 +197,7 @@ type nRun struct {
 	core   *Core
 	clas   map[int]*nCLA
 	mu     sync.Mutex
-	count  map[[2]int]int
+	count  map[[3]int]int // (CLA, tag, sequence number) -> Send calls so far
 	log    []nLogEntry
 	gate   func(addr, tag int, ok bool) // optional rendezvous inside Send, before answering
 	panics []string
@@ -204,7 +205,7 @@ type nRun struct {
 
 // nCLA is a mock convergence sender answering from the history's oracle. It embeds the shared
 // verifMockCLA for identity/lifecycle and replaces Send: the answer depends on (CLA, bundle, attempt
-// number), so that it does not matter in which order the core works through its pending bundles.
+// number of this concrete bundle), so that it does not matter in which order the core works through its pending bundles.
 type nCLA struct {
 	*verifMockCLA
 	r    *nRun
@@ -239,8 +240,11 @@ func (m *nCLA) Send(b bpv7.Bundle) error {
 	r := m.r
 	r.mu.Lock()
 	k := [2]int{m.addr, tag}
-	n := r.count[k]
-	r.count[k] = n + 1
+	// the attempt number counts per concrete bundle on the wire (tag and sequence number): several
+	// submissions of one definition may wait in the store together
+	ck := [3]int{m.addr, tag, int(b.PrimaryBlock.CreationTimestamp.SequenceNumber())}
+	n := r.count[ck]
+	r.count[ck] = n + 1
 	ok := true
 	if pat, has := r.h.oracle[k]; has && len(pat) > 0 {
 		ok = pat[n%len(pat)] == '1'
@@ -251,7 +255,7 @@ func (m *nCLA) Send(b bpv7.Bundle) error {
 		gate(m.addr, tag, ok)
 	}
 	r.mu.Lock()
-	r.log = append(r.log, nLogEntry{m.addr, tag, ok})
+	r.log = append(r.log, nLogEntry{m.addr, tag, ok, ck[2]})
 	r.mu.Unlock()
 	if ok {
 		return nil
@@ -440,7 +444,10 @@ func (r *nRun) observe() string {
 		if lg[i].tag != lg[j].tag {
 			return lg[i].tag < lg[j].tag
 		}
-		return lg[i].addr < lg[j].addr
+		if lg[i].addr != lg[j].addr {
+			return lg[i].addr < lg[j].addr
+		}
+		return lg[i].seq < lg[j].seq
 	})
 	logS := "-"
 	if len(lg) > 0 {
@@ -450,12 +457,19 @@ func (r *nRun) observe() string {
 			if l.ok {
 				ok = 1
 			}
-			ss = append(ss, fmt.Sprintf("%d.%d.%d", l.addr, l.tag, ok))
+			ss = append(ss, fmt.Sprintf("%d.%d.%d.%d", l.addr, l.tag, ok, l.seq))
 		}
 		logS = strings.Join(ss, ",")
 	}
 
-	// candidate IDs: every (source, time) of the universe with sequence numbers 0..3 and its own
+	// candidate IDs: every (source, time) of the universe with its own sequence number and every number the
+	// IdKeeper can have handed out so far (SendBundle assigns 0, 1, 2, … per (source, time): one per submission)
+	maxSeq := 3
+	for _, e := range r.h.events {
+		if e.kind == 'S' {
+			maxSeq++
+		}
+	}
 	type cand struct {
 		key string
 		id  bpv7.BundleID
@@ -464,7 +478,11 @@ func (r *nRun) observe() string {
 	seen := map[string]bool{}
 	for i := range r.h.bundles {
 		d := &r.h.bundles[i]
-		for _, seq := range []int{d.seq, 0, 1, 2, 3} {
+		seqs := []int{d.seq}
+		for q := 0; q <= maxSeq; q++ {
+			seqs = append(seqs, q)
+		}
+		for _, seq := range seqs {
 			key := fmt.Sprintf("%s.%d.%d", d.src.str(), d.ts, seq)
 			if seen[key] {
 				continue
@@ -603,7 +621,7 @@ func (h *nHist) header() string {
 func nRunHist(h *nHist, dir string) (line string) {
 	_ = os.RemoveAll(dir)
 	defer os.RemoveAll(dir)
-	r := &nRun{h: h, dir: dir, clas: map[int]*nCLA{}, count: map[[2]int]int{}}
+	r := &nRun{h: h, dir: dir, clas: map[int]*nCLA{}, count: map[[3]int]int{}}
 	r.t0 = bpv7.DtnTimeNow()
 	net := &verifNet{}
 	for _, p := range h.peers {
